@@ -372,8 +372,7 @@ inline Verdict runForked(const PropFn& fn, Runtime& rt, const std::vector<int64_
     ::close(fds[0]);
     ::alarm(static_cast<unsigned>(timeoutS));
     // silence sanitizer chatter of shrink candidates
-    int devnull = ::open("/dev/null", O_WRONLY);
-    if (devnull >= 0) { ::dup2(devnull, 2); }
+    if (!std::getenv("VERIF_VERBOSE")) { int devnull = ::open("/dev/null", O_WRONLY); if (devnull >= 0) ::dup2(devnull, 2); }
     TapeSrc src(tape);
     Ctx c(src, nullptr);
     Verdict v;
